@@ -605,14 +605,41 @@ STR_LABELS = ['y', 'n', 'u', 'q']
 
 
 def gen_vocab(rng, labels, mode):
-  """mode: None | 'ordered' | 'permuted' | 'superset'"""
+  """mode: None | 'ordered' | 'permuted' | 'shared' | 'superset' | 'oob'
+  shared   : two labels map to the same class id (all ids < len(vocab))
+  superset : keys the data never uses, ids a permutation of range(len(vocab))
+  oob      : one class id == len(vocab): an IndexError as soon as that label occurs (malformed)"""
   if mode is None:
     return None
   labs = list(labels)
+  if mode == 'superset':
+    extra = [97, 98] if all(isinstance(l, int) for l in labs) else ['zz1', 'zz2']
+    labs = labs + extra[:rng.choice([1, 2])]
   idx = list(range(len(labs)))
-  if mode == 'permuted':
+  if mode in ('permuted', 'superset'):
     rng.shuffle(idx)
+  if mode == 'shared' and len(labs) >= 2:
+    rng.shuffle(idx)
+    i, j = rng.sample(range(len(labs)), 2)
+    idx[i] = idx[j]
+  if mode == 'oob':
+    idx[rng.randrange(len(labs))] = len(labs)
   return [[l, i] for l, i in zip(labs, idx)]
+
+
+def gen_ranked_batch(rng, it, labels, n, maxlen=4, dup=False):
+  """multiclass(-multioutput) data for the top-k accumulator: ragged rankings of length 0..maxlen (longer than
+  the label set when `dup`), optionally with repeated labels inside a row."""
+  if it == 'multiclass':
+    return {'yt': {'flat': [rng.choice(labels) for _ in range(n)]},
+            'yp': {'flat': [rng.choice(labels) for _ in range(n)]}}
+  def row(minlen):
+    k = rng.randrange(minlen, maxlen + 1)
+    if dup:
+      return [rng.choice(labels) for _ in range(k)]
+    return rng.sample(labels, min(k, len(labels)))
+  return {'yt': {'nested': [row(1) for _ in range(n)]},
+          'yp': {'nested': [row(0) for _ in range(n)]}}
 
 
 def gen_batch(rng, it, labels, n, width=3, maxlen=3, pos=1):
@@ -757,6 +784,8 @@ def finding_class(case, what):
       return 'FC4'
   if not cfg['vocab'] and it in ('multiclass', 'multiclass-multioutput') and (
       n_batches(case) > 1 or merges or eff == 'samplewise'):
+    if isinstance(what, str) and what.startswith('tn-free'):
+      return None        # F8 is confined to tn (C01_classification_novocab_tp_fp_fn): tp/fp/fn must not move
     return 'F8'
   if eff != 'samplewise' and av == 'macro' and not cfg['vocab'] and merges and \
       it in ('binary', 'multiclass-indicator'):
@@ -1011,6 +1040,20 @@ class C07:
             b = gen_batch(rng, it, labels, n, width=width, pos=cfg['pos_label'])
             ctx.count('combo', f'{kind}/{it}/{av}')
             yield {'t': 'run', 'kind': kind, 'cfg': cfg, 'shards': [[b]], 'trees': [0]}
+    # (2b) top-k against the textbook "class in the first k predictions": ragged rankings, k beyond the length of
+    #      some / all rankings, repeated labels, empty rankings, permuted vocabulary (C07_classification_topk_counts_*)
+    for kind, it, av in [(k, i, a) for k in ('topk', 'wrapper') for i in ('multiclass-multioutput', 'multiclass')
+                         for a in ('micro', 'macro')]:
+      for vmode in ('ordered', 'permuted', 'superset'):
+        for _ in range(reps):
+          labels = INT_LABELS[:rng.choice([2, 3, 4, 5])]
+          ks = rng.choice([[1, 3], [2, 4], [4], [1, 2, 3, 4, 5], [3], [2, 5], [5, 6]])
+          cfg = dict(metrics=list(DERIVED) + ['confusion_matrix'], single=False, pos_label=1, input_type=it,
+                     average=av, vocab=gen_vocab(rng, labels, vmode), k_list=ks)
+          b = gen_ranked_batch(rng, it, labels, rng.choice([0, 1, 2, 3, 5]), maxlen=rng.choice([2, 3, 4, 6]),
+                               dup=rng.random() < .4)
+          C01._count_topk_arms(ctx, cfg, [[b]])
+          yield {'t': 'run', 'kind': kind, 'cfg': cfg, 'shards': [[b]], 'trees': [0]}
     # single-metric form and subsets of metrics
     for _ in range(40 if quick else 600):
       kind, it, av = rng.choice(valid_combos())
@@ -1262,8 +1305,11 @@ class C01:
   RULE = ('every accepted constructor x input type x average, explicit / permuted / deduced vocabulary, int and str '
           'labels: a random dataset, a random composition into shards and batches (empty batches and empty shards '
           'included), merged with merge_states; compared with the same dataset fed as one batch; for the samplewise '
-          'metric additionally the per-example values of the batch vs every example alone; non-trivial = at least 2 '
-          'batches with data and no error')
+          'metric additionally the per-example values of the batch vs every example alone; top-k: ragged rankings, '
+          'k_list with gaps / k beyond the longest ranking of a batch, empty batches and shards, repeated labels, '
+          'vocabularies with permuted / shared / unused / out-of-range ids (arms enforced, hist topk_arm); without a '
+          'vocabulary the tn-free part (tp, fp, fn and the rates that do not read tn) is still required to be '
+          'invariant; non-trivial = at least 2 batches with data and no error')
 
   @staticmethod
   def gen_cases(ctx):
@@ -1291,6 +1337,115 @@ class C01:
           ctx.count('combo', f'{kind}/{it}/{av}/{"vocab" if cfg["vocab"] else "novocab"}')
           ctx.count('batches', n_batches({'shards': shards}))
           yield {'t': 'run', 'kind': kind, 'cfg': cfg, 'shards': shards, 'trees': [tree]}
+    # -- the branches of the top-k closed form (Lemmas/ConfusionTopKShard) and of the arbitrary-vocabulary
+    #    encoders (Lemmas/ConfusionVocab): ragged rankings, k beyond the longest ranking of a batch, empty
+    #    batches / shards, repeated labels, vocabularies with permuted / shared / unused / out-of-range ids
+    reps = 6 if quick else 80
+    for kind, it, av in [(k, i, a) for k in ('topk', 'wrapper') for i in ('multiclass-multioutput', 'multiclass')
+                         for a in ('micro', 'macro')]:
+      for vmode in ('ordered', 'permuted', 'shared', 'superset', 'oob', None):
+        for _ in range(reps):
+          labels = INT_LABELS[:rng.choice([2, 3, 4, 5])]
+          ks = rng.choice([[1, 3], [2, 4], [4], [1, 2, 3, 4, 5], [3], [2, 5], [1], [5, 6]])
+          ms = rng.sample(DERIVED, 4) + ['confusion_matrix']
+          cfg = dict(metrics=ms, single=False, pos_label=1, input_type=it, average=av,
+                     vocab=gen_vocab(rng, labels, vmode), k_list=ks)
+          dup = rng.random() < .4
+          whole = gen_ranked_batch(rng, it, labels, rng.choice([1, 2, 3, 4, 6, 9]), maxlen=rng.choice([2, 3, 4, 6]),
+                                   dup=dup)
+          shards = split_shards(rng, whole, it)
+          if n_batches({'shards': shards}) == 0:
+            shards = [[whole]]
+          if rng.random() < .3:
+            shards.insert(rng.randrange(len(shards) + 1), [])
+          tree = list(range(len(shards)))
+          C01._count_topk_arms(ctx, cfg, shards)
+          ctx.count('combo', f'{kind}/{it}/{av}/{"vocab" if cfg["vocab"] else "novocab"}')
+          yield {'t': 'run', 'kind': kind, 'cfg': cfg, 'shards': shards, 'trees': [tree]}
+    # -- arbitrary vocabularies for the plain and the samplewise accumulator
+    for kind, it, av in [('cm', 'multiclass', 'micro'), ('cm', 'multiclass', 'macro'),
+                         ('cm', 'multiclass-multioutput', 'micro'), ('cm', 'multiclass-multioutput', 'macro'),
+                         ('samplewise', 'multiclass', 'samples'), ('samplewise', 'multiclass-multioutput', 'samples')]:
+      for vmode in ('shared', 'superset', 'oob'):
+        for _ in range(reps):
+          labels = INT_LABELS[:rng.choice([2, 3, 4])]
+          ms = rng.sample(DERIVED, 4) + (['confusion_matrix'] if av != 'samples' else [])
+          cfg = dict(metrics=ms, single=False, pos_label=1, input_type=it, average=av,
+                     vocab=gen_vocab(rng, labels, vmode), k_list=None)
+          whole = gen_ranked_batch(rng, it, labels, rng.choice([1, 2, 3, 5]), maxlen=3, dup=rng.random() < .4)
+          if it == 'multiclass-multioutput' and av == 'samples':
+            whole['yp']['nested'] = [r or [labels[0]] for r in whole['yp']['nested']]
+          shards = split_shards(rng, whole, it)
+          if n_batches({'shards': shards}) == 0:
+            shards = [[whole]]
+          ctx.count('vocab_arm', f'{kind}/{vmode}')
+          yield {'t': 'run', 'kind': kind, 'cfg': cfg, 'shards': shards, 'trees': [list(range(len(shards)))]}
+
+  TOPK_ARMS = ['ragged_rows', 'row_shorter_than_some_k', 'k_beyond_longest_row_of_a_batch', 'empty_batch',
+               'empty_shard', 'empty_prediction_row', 'repeated_label_in_row', 'k_list_gap', 'vocab_permuted',
+               'vocab_shared_id', 'vocab_unused_key', 'vocab_id_out_of_range', 'no_vocab', 'macro', 'micro',
+               'multiclass_input', 'at_least_3_batches']
+
+  @staticmethod
+  def _count_topk_arms(ctx, cfg, shards):
+    ks = cfg['k_list']
+    mo = cfg['input_type'] == 'multiclass-multioutput'
+    arms = set()
+    arms.add(cfg['average'])
+    if not mo:
+      arms.add('multiclass_input')
+    v = cfg['vocab']
+    if v is None:
+      arms.add('no_vocab')
+    else:
+      ids = [i for _, i in v]
+      used = {x for s in shards for b in s for rows in (b['yt'], b['yp'])
+              for x in (rows['flat'] if 'flat' in rows else [e for r in rows['nested'] for e in r])}
+      if len(set(ids)) < len(ids):
+        arms.add('vocab_shared_id')
+      if any(i >= len(v) for i in ids):
+        arms.add('vocab_id_out_of_range')
+      if any(k not in used for k, _ in v):
+        arms.add('vocab_unused_key')
+      if ids != sorted(ids):
+        arms.add('vocab_permuted')
+    if sorted(set(ks)) != list(range(1, max(ks) + 1)):
+      arms.add('k_list_gap')
+    if any(not s for s in shards):
+      arms.add('empty_shard')
+    if n_batches({'shards': shards}) >= 3:
+      arms.add('at_least_3_batches')
+    for s in shards:
+      for b in s:
+        if mo:
+          rows = b['yp']['nested']
+          if not rows:
+            arms.add('empty_batch')
+            continue
+          lens = [len(r) for r in rows]
+          if len(set(lens)) > 1:
+            arms.add('ragged_rows')
+          if any(l < max(ks) for l in lens):
+            arms.add('row_shorter_than_some_k')
+          if max(lens) < max(ks):
+            arms.add('k_beyond_longest_row_of_a_batch')
+          if 0 in lens:
+            arms.add('empty_prediction_row')
+          if any(len(set(r)) < len(r) for r in rows + b['yt']['nested']):
+            arms.add('repeated_label_in_row')
+        elif not b['yp']['flat']:
+          arms.add('empty_batch')
+    for a in arms:
+      ctx.count('topk_arm', a)
+
+  @staticmethod
+  def extra(ctx):
+    """promised arms of the top-k / vocabulary generators: a run that misses one is not a verdict"""
+    got = ctx.hist.get('topk_arm', {})
+    missing = [a for a in C01.TOPK_ARMS if not got.get(a)]
+    if missing:
+      from harness.core import InfraError
+      raise InfraError(f'C01 classification: generator missed promised top-k arms {missing}')
 
   @staticmethod
   def _single(case):
@@ -1341,6 +1496,9 @@ class C01:
     on batch-mates."""
     a, b = obs['sharded'], obs['single']
     strip = lambda o: {k: v for k, v in o.items() if k != 'stage'}
+    w = C01._tn_free_mismatch(case, a, b)
+    if w is not None:
+      return w
     if not deep_close(strip(a), strip(b), rel=1e-9, abs_=1e-9):
       return f'sharded/batched run gives {_short(a)}, the same data in one batch gives {_short(b)}'
     if 'rows_batch' in obs:
@@ -1357,6 +1515,35 @@ class C01:
     return None
 
   @staticmethod
+  def _tn_free_mismatch(case, a, b):
+    """Without a vocabulary (F8) only tn may depend on the batching: with the micro average tp / fp / fn and every
+    rate that does not read tn must still equal the one-batch values (the property itself, minus the part the
+    open finding concedes).  The message starts with 'tn-free' so that `finding` does not file it under F8."""
+    cfg, kind = case['cfg'], case['kind']
+    eff = ('samplewise' if cfg['average'] == 'samples' else ('topk' if cfg['k_list'] else 'cm')) \
+        if kind == 'wrapper' else kind
+    if cfg['vocab'] or cfg['average'] != 'micro' or eff not in ('cm', 'topk') or \
+        cfg['input_type'] not in ('multiclass', 'multiclass-multioutput'):
+      return None
+    if 'result' not in a or 'result' not in b:
+      return None
+    ra, rb = a['result'], b['result']
+    if cfg['single']:
+      ra, rb = {cfg['metrics'][0]: ra}, {cfg['metrics'][0]: rb}
+    if not isinstance(ra, dict) or not isinstance(rb, dict):
+      return None
+    for m in cfg['metrics']:
+      if m in TN_FREE and not deep_close(ra.get(m), rb.get(m), rel=1e-9, abs_=1e-9):
+        return f'tn-free metric {m}: sharded/batched run gives {ra.get(m)}, one batch gives {rb.get(m)}'
+      if m == 'confusion_matrix' and isinstance(ra.get(m), dict) and isinstance(rb.get(m), dict) \
+          and 'cm' in ra[m] and 'cm' in rb[m]:
+        for key in ('tp', 'fp', 'fn'):
+          if not deep_close(ra[m]['cm'].get(key), rb[m]['cm'].get(key), rel=0, abs_=0):
+            return (f'tn-free count {key}: sharded/batched run gives {ra[m]["cm"].get(key)}, '
+                    f'one batch gives {rb[m]["cm"].get(key)}')
+    return None
+
+  @staticmethod
   def nontrivial(case, obs):
     return sum(1 for s in case['shards'] for b in s if py_rows(b['yt'])) >= 2 and 'err' not in obs['sharded']
 
@@ -1364,7 +1551,12 @@ class C01:
 
   @staticmethod
   def shrink(case, fails):
-    return shrink_run(case, fails)
+    # keep the shrunk case outside the known-finding input classes (a tn-free failure without a vocabulary must
+    # not be shrunk into a plain tn difference, which is the open finding F8)
+    def still_new(c):
+      w = fails(c)
+      return bool(w) and finding_class(c, w if isinstance(w, str) else None) is None
+    return shrink_run(case, still_new)
 
   @staticmethod
   def neighbours(case, rng):
